@@ -296,6 +296,10 @@ SCHEMA = {
     24: ("etype ealgnum i8 ttl sigtime sigtime i16 n b64",
          ["type_covered", "algorithm", "labels", "original_ttl", "expiration", "inception", "key_tag", "signer", "signature"]),
     108: ("eui6", ["eui"]), 109: ("eui8", ["eui"]),
+    43: ("d16 alg d8 hex", ["key_tag", "algorithm", "digest_type", "digest"]),
+    59: ("d16 alg d8 hex", ["key_tag", "algorithm", "digest_type", "digest"]),
+    32769: ("d16 alg d8 hex", ["key_tag", "algorithm", "digest_type", "digest"]),
+    63: ("d32 d8 d8 hex", ["serial", "scheme", "hash_algorithm", "digest"]),
     16: ("txt", ["strings"]), 99: ("txt", ["strings"]), 258: ("txt", ["strings"]), 56: ("txt", ["strings"]),
     261: ("txt", ["strings"]), 262: ("txt", ["strings"]),
 }
@@ -354,6 +358,24 @@ def gen_field(rng, kind):
     raise ValueError(kind)
 
 
+DS_LEN = {1: 20, 2: 32, 3: 32, 4: 48}
+
+
+def fixup(rng, rdtype, vals):
+    """constraints between fields checked by the constructors (values outside them cannot be built)"""
+    if rdtype in (43, 59, 32769):
+        dt = rng.choice([1, 2, 3, 4, 4, 5, 6, 255, rng.randrange(1, 256)] + ([0, 0] if rdtype == 59 else []))
+        n = 1 if dt == 0 else DS_LEN.get(dt, rng.choice([1, 2, 20, 33, 64]))
+        vals[2] = dt
+        vals[3] = bytes(rng.randrange(256) for _ in range(n))
+    elif rdtype == 63:
+        vals[1] = rng.choice([1, 1, 2, 240, 255, rng.randrange(1, 256)])
+        vals[2] = rng.choice([1, 1, 2, 2, 3, 240, 255, rng.randrange(1, 256)])
+        n = {1: 48, 2: 64}.get(vals[2], rng.choice([1, 12, 48, 64, 65]))
+        vals[3] = bytes(rng.randrange(256) for _ in range(n))
+    return vals
+
+
 ORIGINS = [None, [b"example", b""], [b"EXAMPLE", b""], [b""], [b"sub", b"example", b""], [b"rel"], []]
 
 
@@ -393,7 +415,7 @@ def schema_cases(ctx):
     for _ in range(ctx.n(160, 7000)):
         rdtype = rng.choice(types)
         kinds = SCHEMA[rdtype][0].split()
-        vals = [gen_field(rng, k) for k in kinds]
+        vals = fixup(rng, rdtype, [gen_field(rng, k) for k in kinds])
         sty = gen_style(rng)
         yield "rd-to-text", [40, rdtype, vals, sty]
         try:
